@@ -33,7 +33,7 @@ def plan(tier, seed):
 def required(tier):
     r = {"fold-data": 50, "fold-mask": 50, "fold-total": 50, "fold-mirror-invariant": 50, "fold-idempotent": 50,
             "misid-convex": 50, "mixed-folding-refused": 50, "binop-attrs": 200, "iop-attrs": 100, "slice-attrs": 50,
-            "ll-keeps-attrs": 10}
+            "ll-keeps-attrs": 10, "ll-result-mask-is-union": 10}
     r.update({'ambient-fold': 20, 'ambient-fold-mask': 20})
     return r
 
@@ -268,7 +268,15 @@ def run(spec, rec):
                     data.data.copy(), np.asarray(data.mask).copy(), data.folded, data.pop_ids)
             for fname in ("ll", "ll_multinom", "ll_per_bin", "optimal_sfs_scaling", "optimally_scaled_sfs",
                           "linear_Poisson_residual", "Anscombe_Poisson_residual"):
-                ok, _ = rec.noraise("ll-returns", lambda: getattr(Inference, fname)(model, data), site="Inference." + fname)
+                ok, out = rec.noraise("ll-returns", lambda: getattr(Inference, fname)(model, data), site="Inference." + fname)
+                if ok and fname in ("ll_per_bin", "linear_Poisson_residual"):
+                    # masks survive likelihood evaluation: the per-entry result hides exactly the entries hidden in either operand
+                    om = np.asarray(np.ma.getmaskarray(out))
+                    want = np.asarray(mf.mask) | np.asarray(data.mask)
+                    inner = np.ones(want.shape, bool)
+                    inner.flat[0] = inner.flat[-1] = False
+                    rec.check("ll-result-mask-is-union", om.shape == want.shape and np.array_equal(om[inner], want[inner]), site="Inference." + fname,
+                              tags={"data_folded": bool(data.folded)}, observed=om.astype(int), expected=want.astype(int))
                 same = (np.array_equal(model.data, snap[0]) and np.array_equal(np.asarray(model.mask), snap[1]) and model.folded == snap[2]
                         and model.pop_ids == snap[3] and np.array_equal(data.data, snap[4]) and np.array_equal(np.asarray(data.mask), snap[5])
                         and data.folded == snap[6] and data.pop_ids == snap[7])
